@@ -83,11 +83,21 @@ def propagateGlobals (globals : List Arg) (autoHelpSub : Bool) (sc : Cmd) : Cmd 
   if sc.name == b_help && autoHelpSub then sc else
   sc.withArgs (globals.foldl (fun acc a => if acc.any (fun x => x.id == a.id) then acc else acc ++ [a]) sc.args)
 
-/-- the command-level `allow_hyphen_values` / `allow_negative_numbers` switches, applied to a BUILT arg of the level -/
-def cmdLevelArg (st : Settings) (a : Arg) : Arg :=
-  if a.takesValue then
-    { a with allowHyphen := a.allowHyphen || st.allowHyphenValues, allowNegative := a.allowNegative || st.allowNegativeNumbers }
-  else a
+/-- the command-level switches `_build_self` applies to the built args of the level at its very end, with the highest
+positional index of the level (`0` when there is none) -/
+structure LevelSwitches where
+  hyphen : Bool
+  negative : Bool
+  trailing : Bool
+  highestIdx : Nat
+
+/-- `allow_hyphen_values` / `allow_negative_numbers` for every value-taking arg, `trailing_var_arg` for the positional
+with the highest index -/
+def cmdLevelArg (sw : LevelSwitches) (a : Arg) : Arg :=
+  let a1 : Arg :=
+    if a.takesValue then { a with allowHyphen := a.allowHyphen || sw.hyphen, allowNegative := a.allowNegative || sw.negative }
+    else a
+  { a1 with trailingVarArg := a1.trailingVarArg || (sw.trailing && a.index == some sw.highestIdx) }
 
 /-- the body of `_build_self` for one level (subcommands receive globals but are not built yet);
 NOT idempotent on its own: a second run would add the help/version args again and re-run the arg build -/
@@ -117,7 +127,9 @@ def buildSelfCore (c : Cmd) : Cmd :=
       argsOverrideSelf := s.argsOverrideSelf || st.argsOverrideSelf }
   let subs2 := (subs1.map inherit).map (propagateGlobals globals (!st.disableHelpSubcommand))
   let (args3, groups) := buildArgs args2 1 c.groups
-  (((c.withSettings st).withArgs (args3.map (cmdLevelArg st))).withGroups groups).withSubs subs2
+  let sw : LevelSwitches := ⟨st.allowHyphenValues, st.allowNegativeNumbers, st.trailingVarArg,
+    (args3.filterMap (·.index)).foldl max 0⟩
+  (((c.withSettings st).withArgs (args3.map (cmdLevelArg sw))).withGroups groups).withSubs subs2
 
 /-- `_build_self`: `if !self.is_set(AppSettings::Built) { … self.settings.set(Built) }` -/
 def buildSelf (c : Cmd) : Cmd := if c.settings.built then c else buildSelfCore c
